@@ -71,6 +71,14 @@ def cases(tier, seed):
                     if tier == "quick" and n_set == 3 and s > 2:
                         continue
                     out.append({"family": "split", "kind": kind, "N": N, "box": [3, 3, 3], "chunk": "numpy", "seed": s, "n_set": n_set})
+    # integer tomograms (MRC modes 0, 1, 6): the mean of sub-volumes that share a bright voxel must not wrap around
+    for kind in ("single", "batch(2,1)", "group2", "group3", "batch(2,1|1,1)"):
+        for N in (2, 3, 5, 6):
+            if _counts(kind, N) is None:
+                continue
+            for dt in ("int8", "uint8", "int16", "float64"):
+                for ch in ("numpy", "dask:3,4,5"):
+                    out.append({"family": "onehot", "kind": kind, "N": N, "box": [3, 3, 3], "chunk": ch, "dtype": dt})
     for kind in ("single", "batch(2,1)", "group2", "mock"):
         for N in (1, 2, 3, 5):
             if _counts(kind, N) is None:
@@ -98,7 +106,10 @@ def _as_array(a, kind):
 PAD = 3
 
 
-def _onehot_universe(counts, box, chunk):
+AMP = {"float32": 1.0, "float64": 1.0, "int8": 100, "uint8": 200, "int16": 30000}
+
+
+def _onehot_universe(counts, box, chunk, dtype="float32"):
     """tomograms + molecules: molecule i's box has a single one at flat voxel index i (global numbering)"""
     from acryo import Molecules
 
@@ -106,12 +117,14 @@ def _onehot_universe(counts, box, chunk):
     tomos, moles = [], []
     gi = 0
     for n in counts:
-        T = np.zeros((bz + 2 * PAD, by + 2 * PAD, bx * n + 2 * PAD), dtype=np.float32)
+        T = np.zeros((bz + 2 * PAD, by + 2 * PAD, bx * n + 2 * PAD), dtype=np.dtype(dtype))
         pos = []
         uids = []
         for j in range(n):
-            blk = np.zeros(bz * by * bx, dtype=np.float32)
-            blk[gi] = 1.0
+            blk = np.zeros(bz * by * bx, dtype=np.dtype(dtype))
+            blk[gi] = AMP[dtype]
+            if dtype != "float32":
+                blk[-1] = AMP[dtype]  # a voxel that is bright in every sub-volume: partial sums leave the integer range
             T[PAD:PAD + bz, PAD:PAD + by, PAD + bx * j:PAD + bx * (j + 1)] = blk.reshape(box)
             pos.append([PAD + (bz - 1) / 2, PAD + (by - 1) / 2, PAD + bx * j + (bx - 1) / 2])
             uids.append(gi)
@@ -152,14 +165,23 @@ def run_case(case):
         return _run_random(case)
     kind, N, box = case["kind"], case["N"], tuple(case["box"])
     counts = _counts(kind, N)
-    tomos, moles = _onehot_universe(counts, box, case["chunk"])
-    ld = _make_loader(kind, tomos, moles, box)
+    dtype = case.get("dtype", "float32")
+    amp = float(AMP[dtype])
+    tomos, moles = _onehot_universe(counts, box, case["chunk"], dtype)
+    ld = _make_loader(kind, tomos, moles, box, order=1 if dtype == "float32" else 0)
     viol = []
-    sig = lambda what: f"{ID}|{fam}|{kind.split('(')[0]}|{what}"  # noqa
+    sig = lambda what: f"{ID}|{fam}|{kind.split('(')[0]}|{what}" + ("" if case.get("dtype") is None else "|integer-tomogram" if "int" in case["dtype"] else "|float64-tomogram")  # noqa
     nvox = int(np.prod(box))
 
     def weights(img):
-        return np.asarray(img, dtype=np.float64).reshape(-1)
+        return np.asarray(img, dtype=np.float64).reshape(-1) / amp
+
+    def expected(members):
+        e = np.zeros(nvox)
+        e[list(members)] = 1.0 / len(members)
+        if dtype != "float32":
+            e[-1] = 1.0
+        return e
 
     if fam == "onehot":
         if kind.startswith("group"):
@@ -171,8 +193,7 @@ def run_case(case):
                 kk = k[0] if isinstance(k, tuple) else k
                 members = [u for u in uids_all if gfn(u) == kk]
                 w = weights(img)
-                exp = np.zeros(nvox)
-                exp[members] = 1.0 / len(members)
+                exp = expected(members)
                 if np.abs(w - exp).max() > 1e-6:
                     viol.append((sig("group-average-weights"), f"group {k} of N={N}: weights {np.round(w[:N], 4).tolist()} expected {np.round(exp[:N], 4).tolist()}"))
                 import polars as pl
@@ -184,10 +205,9 @@ def run_case(case):
                 viol.append((sig("group-keys"), f"keys {list(avgs)}"))
         else:
             w = weights(ld.average())
-            exp = np.zeros(nvox)
-            exp[:N] = 1.0 / N
+            exp = expected(range(N))
             if w.shape[0] != nvox or np.abs(w - exp).max() > 1e-6:
-                viol.append((sig("average-weights"), f"N={N}, tomogram counts {counts}, box {box}, chunking {case['chunk']}: molecule weights {np.round(w[:N], 5).tolist()} expected all {1.0 / N:.5f}; stray weight {np.abs(w[N:]).max() if nvox > N else 0:.3g}"))
+                viol.append((sig("average-weights"), f"N={N}, tomogram counts {counts}, box {box}, chunking {case['chunk']}, dtype {dtype}: molecule weights {np.round(w[:N], 5).tolist()} expected all {1.0 / N:.5f}; other voxels off by {np.abs((w - exp)[N:]).max() if nvox > N else 0:.3g}"))
             m = weights(np.asarray(ld.asnumpy()).mean(axis=0))
             if np.abs(w - m).max() > 1e-6:
                 viol.append((sig("average-vs-stack-mean"), f"average() differs from asnumpy().mean(0) by {np.abs(w - m).max():.3g}"))
